@@ -362,6 +362,40 @@ func (s *Sim) OpenCopyOf(vr *Variant, mgrSize int64) (*shard.Shard, func()) {
 	return sh, func() { sh.Close(); os.Remove(path) }
 }
 
+// ApplyFaulted: the batch is given ONLY to the variants behind the storage proxy, with a storage
+// fault armed at commit time: each must report an error, and nothing of the batch is committed (the
+// shadow collection and the other variants never see it). Returns "" or what went wrong.
+func (s *Sim) ApplyFaulted(b Batch) string {
+	pts := make([]models.Point, len(b.Changes))
+	set := map[uuid.UUID]struct{}{}
+	for i, c := range b.Changes {
+		set[c.Id] = struct{}{}
+		if c.Doc != nil {
+			pts[i] = models.Point{Id: c.Id, Data: Encode(c.Doc)}
+		}
+	}
+	for _, v := range s.Variants {
+		if v.Poison == nil {
+			continue
+		}
+		v.Poison.FailWrites(1)
+		var err error
+		switch b.Kind {
+		case "insert":
+			err = v.Shard.InsertPoints(pts)
+		case "update":
+			_, err = v.Shard.UpdatePoints(pts)
+		case "delete":
+			_, err = v.Shard.DeletePoints(set)
+		}
+		v.Poison.FailWrites(0)
+		if err == nil {
+			return fmt.Sprintf("%s: the %s batch reported success although its storage transaction failed", v.Name, b.Kind)
+		}
+	}
+	return ""
+}
+
 type Change struct {
 	Id  uuid.UUID
 	Doc Doc // insert: the document; update: the partial document ("_delete" removes); delete: nil
